@@ -3,7 +3,7 @@ token soups, mutations, and strings pumped from the tokeniser's own regex loops.
 import random
 
 KINDS = ["p", "r", "table", "b", "i", "u", "strike", "all-caps", "small-caps", "highlight", "comment-reference", "br"]
-IDENT_CHARS = list("abcXYZ-_09") + ["é", "\U0001f600", "'", "\\", "[", "]", ">", "|", "=", "=>", ":", ".", "(", ")", "!",
+IDENT_CHARS = list("abcXYZ-_09nrt") + ["\\n", "\\t", "\\r", "\\\\", "é", "\U0001f600", "'", "\\", "[", "]", ">", "|", "=", "=>", ":", ".", "(", ")", "!",
                                      "\n", "\r", "\t", "^", "#", "&", "<", '"', "1"]
 STR_CHARS = IDENT_CHARS + [" ", "  ", " ", " "]
 WS = [" ", "  ", "\t", " ", " ", " \t "]
